@@ -594,7 +594,14 @@ def small_rows(atoms, rnd, max_rows=R):
     return {name: sorted(rows.items(), key=repr) for name, rows in db.items()}
 
 
-def split_steps(sdb, rnd, schedule, with_subsume=False, subsume_ctors=True):
+def all_terms(x, acc):
+    if isinstance(x, tuple):
+        acc.add(x)
+        for y in x[1]:
+            all_terms(y, acc)
+
+
+def split_steps(sdb, rnd, schedule, with_subsume=False, subsume_ctors=True, with_unions=False):
     """Distribute the small rows over the steps of `schedule` (a list of ruleset names): each row is written
     either at top level before some step ('pre') or by a rule during some step but the last ('aux').
     with_subsume: some relation rows are later subsumed (at top level or by a rule), and some subsumed tuples are
@@ -626,6 +633,22 @@ def split_steps(sdb, rnd, schedule, with_subsume=False, subsume_ctors=True):
                     later.append((rnd.randrange(k2 + 1, n), "pre", "ins", name, key, val))
     for ev in later:
         emit(*ev)
+    if with_unions:
+        terms = set()
+        for name, rows in sdb.items():
+            for key, val in rows:
+                for x in key:
+                    all_terms(x, terms)
+                if gen.kind_of(name) == "ctor":
+                    terms.add((name, tuple(key)))
+        terms = sorted(terms, key=repr)
+        for _ in range(rnd.randint(1, 2)):
+            if len(terms) >= 2:
+                a, b = rnd.sample(terms, 2)
+                k = rnd.randrange(n)
+                how = "aux" if (k < n - 1 and rnd.random() < 0.4) else "pre"
+                steps[k][how].append("(union %s %s)" % (gen.val_text(a), gen.val_text(b)))
+                timeline.append((k, how, "union", None, (a, b), None))
     # program order: by step; inside a step all 'pre' commands come before the run, 'aux' actions happen during it
     order = {"pre": 0, "aux": 1}
     timeline.sort(key=lambda e: (e[0], order[e[1]]))
@@ -639,9 +662,15 @@ def db_at_step(timeline, step, prev_step, tid_of, mid):
     -> mid-1; written by a rule DURING the previous run -> mid; anything later -> mid+1.  Subsuming a row
     re-stamps it; inserting an existing tuple again changes nothing."""
     db = {}
+    unions = []
     for (k, how, kind, name, key, val) in timeline:
         if k > step or (k == step and how == "aux"):
             continue  # has not happened yet
+        if kind == "union":
+            for t in key:
+                insert_row(db, tid_of, t[0], tuple(t[1]), None, 0)
+            unions.append(key)
+            continue
         if prev_step is None:
             ts = 0
         elif k < prev_step or (k == prev_step and how == "pre"):
@@ -656,7 +685,91 @@ def db_at_step(timeline, step, prev_step, tid_of, mid):
         else:
             if key in rows and rows[key][2] == 0:
                 rows[key] = (rows[key][0], ts, 1)
+    if unions:
+        return Canon(db, unions, tid_of).db(db)
     return db
+
+
+class Canon:
+    """congruence closure over the constructor terms of a concrete (term-level) database plus a list of unions:
+    the equalities a rebuild must establish.  Used only by the concrete cross-check of histories with unions."""
+
+    def __init__(self, db, unions, tid_of):
+        self.parent = {}
+        self.name_of = {tid: name for name, tid in tid_of.items()}
+        terms = []
+        for tid, rows in db.items():
+            if gen.kind_of(self.name_of[tid]) == "ctor":
+                for key in rows:
+                    terms.append((self.name_of[tid], tuple(key)))
+        for t in terms:
+            self.parent.setdefault(t, t)
+        for a, b in unions:
+            self.parent.setdefault(a, a)
+            self.parent.setdefault(b, b)
+            self.union(a, b)
+        changed = True
+        while changed:
+            changed = False
+            sig = {}
+            for t in list(self.parent):
+                k = (t[0], tuple(self.val(x) for x in t[1]))
+                if k in sig and self.find(sig[k]) != self.find(t):
+                    self.union(sig[k], t)
+                    changed = True
+                sig.setdefault(k, t)
+        # representative: smallest member by repr (deterministic, independent of union order)
+        self.rep = {}
+        for t in self.parent:
+            r = self.find(t)
+            if r not in self.rep or repr(t) < repr(self.rep[r]):
+                self.rep[r] = t
+        self.sig = {}
+        for t in self.parent:
+            self.sig[(t[0], tuple(self.val(x) for x in t[1]))] = self.rep[self.find(t)]
+
+    def find(self, t):
+        while self.parent[t] != t:
+            self.parent[t] = self.parent[self.parent[t]]
+            t = self.parent[t]
+        return t
+
+    def union(self, a, b):
+        ra, rb = self.find(a), self.find(b)
+        if ra != rb:
+            self.parent[ra] = rb
+
+    def val(self, x):
+        """canonical form of a value: integers are themselves; a term is its class representative (terms the
+        database never saw, e.g. an extracted term, are canonicalised argument-wise and looked up by congruence)"""
+        if not isinstance(x, tuple):
+            return x
+        if x in self.parent and hasattr(self, "rep"):
+            return self.rep[self.find(x)]
+        if x in self.parent:
+            return self.find(x)
+        k = (x[0], tuple(self.val(y) for y in x[1]))
+        if hasattr(self, "sig") and k in self.sig:
+            return self.sig[k]
+        return k
+
+    def db(self, db):
+        out = {}
+        for tid, rows in db.items():
+            name = self.name_of[tid]
+            new = {}
+            for key, (val, ts, sub) in rows.items():
+                k2 = tuple(self.val(x) for x in key)
+                v2 = self.val(val) if isinstance(val, tuple) else val
+                if k2 in new:
+                    ov, ots, osub = new[k2]
+                    if gen.kind_of(name) == "fn":
+                        v2 = min(ov, v2)
+                    new[k2] = (v2 if gen.kind_of(name) != "ctor" else ov, max(ots, ts), max(osub, sub))
+                else:
+                    new[k2] = (v2, ts, sub)
+            out[tid] = new
+        return out
 
 
 def main_rule_records(events, out_tid):
@@ -819,6 +932,8 @@ def replay_artefact(binary, path, workdir):
         return None, "artefact has no program / expected_out"
     exp = {k: {tuple(t) for t in v} for k, v in json.loads(e.group(1)).items()}
     rc, out, err, _ = run_program(binary, m.group(1), workdir, "replay")
+    if "__must_exit_zero__" in exp:
+        return (rc != 0), "program exited %d (0 expected)\n%s" % (rc, err[-600:])
     if rc != 0:
         return None, "program exited %d: %s" % (rc, err[-400:])
     real = {k: {t for t in parse_out(out, k) if all_small(t)} for k in exp}
@@ -872,8 +987,10 @@ def work_item(args):
         sdb = small_rows(atoms, rnd)
         # a class whose only node is subsumed prints as `Unextractable`: constructor rows are subsumed only when no
         # head variable has the eq-sort (the rule's matches stay observable through the printed Out table)
+        with_unions = seed >= 1000 and any(gen.kind_of(nm) == "ctor" for nm in atoms.types)
         steps, placed = split_steps(sdb, rnd, schedule, with_subsume=(prop == "C13"),
-                                    subsume_ctors=not any(gen.var_type(v) == "E" for v in head))
+                                    subsume_ctors=not any(gen.var_type(v) == "E" for v in head), with_unions=with_unions)
+        res["unions"] = sum(1 for e in placed if e[2] == "union")
         tail = None
         check_expect = None
         if prop == "C13":
@@ -890,7 +1007,15 @@ def work_item(args):
             text2 = gen.render_program(atoms, no_decomp, profile, steps, seed=seed, rules=rules, head=head, tail=None)
             rc, out, err2, _ = run_program(binary, text2, workdir, tag + "_nocheck")
         if rc != 0:
-            res["errors"].append("egglog exited %d on generated program %s: %s" % (rc, tag, err[-400:]))
+            if rc == 101 or "panicked at" in err:
+                # the engine panicked on a well-typed, monotone generated program: that is a violation in itself
+                art = os.path.join(workdir, tag + ".panic.txt")
+                write_artefact(art, prop, "the engine panicked (exit %d) on a generated well-typed monotone program" % rc, text,
+                               {"__must_exit_zero__": []}, {"__must_exit_zero__": []}, "stderr tail:\n" + err[-1500:])
+                res["violations"].append({"key": "panic:" + sid, "what": "egglog panicked (exit %d) on generated program %s: %s"
+                                          % (rc, tag, " ".join(err[-300:].split())), "replay": art, "reproduced": True})
+            else:
+                res["errors"].append("egglog exited %d on generated program %s: %s" % (rc, tag, err[-400:]))
             return res
         funcs = [e for e in events if e["ev"] == "funcs"][-1]
         V = Validator(atoms, funcs, head=head)
@@ -901,7 +1026,7 @@ def work_item(args):
             if V.projecting:
                 return {t for t in eval_body(atoms, V.tid_of, merged(base, cdb), small_only=False, head=head, **kw) if all_small(t)}
             return eval_body(atoms, V.tid_of, cdb, head=head, **kw)
-        pin_ok = (not V.projecting) or not any(base.values())
+        pin_ok = ((not V.projecting) or not any(base.values())) and not res["unions"]
         sev = step_events(events, None)
         if len(sev) != len(schedule):
             res["errors"].append("%s: %d scheduled runs but %d run events with body rules in the dump" % (tag, len(schedule), len(sev)))
@@ -992,6 +1117,20 @@ def work_item(args):
                 elif cq != "unsat":
                     res["errors"].append("%s: plan %s: the semantic queries are unsat but the timestamp cover query is %s (%s)"
                                          % (tag, key, cq, cw))
+            if res["unions"]:
+                # compare modulo the equalities that hold at the end (Out rows are themselves re-canonicalised)
+                fdb = {}
+                fun = []
+                for (k_, how_, kind_, name_, key_, val_) in placed:
+                    if kind_ == "union":
+                        for t_ in key_:
+                            insert_row(fdb, V.tid_of, t_[0], tuple(t_[1]), None, 0)
+                        fun.append(key_)
+                    elif kind_ == "ins":
+                        insert_row(fdb, V.tid_of, name_, key_, val_, 0)
+                cn = Canon(fdb, fun, V.tid_of)
+                real = {tuple(cn.val(x) for x in t) for t in real}
+                exp = {tuple(cn.val(x) for x in t) for t in exp}
             real_all[outrel], exp_all[outrel] = real, exp
             res["sanity"].append({"tag": tag, "ruleset": rs, "real_out": len(real), "expected": len(exp), "agree": real == exp})
         if prop == "C13":
@@ -1101,6 +1240,10 @@ def configs_for(prop, tier, seed):
                 continue
             cfgs = [(nd, prof, sd, sc, rl) for sc in scheds for rl in rule_sets for prof in profs
                     for nd in ((False,) if quick else (False, True)) for sd in (seeds if not quick else seeds[:1])]
+            if any(gen.kind_of(nm) == "ctor" for nm in gen.parse_body(body).types):
+                # the same histories with top-level / rule-made unions in them (seed + 1000 switches them on): rows that
+                # only become matchable through rebuilding must be found by the next semi-naive run
+                cfgs += [(nd, prof, sd + 1000, sc, rl) for (nd, prof, sd, sc, rl) in cfgs]
             items.append((sid, body, cfgs))
     elif prop == "C13":
         rules = {"main": ("Out", "")}
